@@ -13,31 +13,16 @@
 (***************************************************************************)
 EXTENDS GoitFSProps
 
-DevIds == {"KF_C15_rename_gap"}
+(* No finding is recorded at present: KF-C15-1 (branch -r renamed the branch file before it rewrote HEAD, so a *)
+(* kill in between left HEAD naming a branch that no longer existed) was repaired; known_findings.json lists it *)
+(* under "fixed", and GoitFS.tla keeps the old protocol as a negative control (RenameFirst).  The mechanism     *)
+(* stays: a new finding gets an id in DevIds, a predicate in Dev and the clause names it accounts for in        *)
+(* Explains.                                                                                                    *)
+DevIds == {}
 
-(* branch -r renames the branch file first and rewrites HEAD second (cmd/branch.go: RenameBranch, then  *)
-(* Head.Update).  Killed in between, HEAD still names the old branch, which no longer exists, while the *)
-(* new name already holds the commit.  Nothing else differs from the state before the command.          *)
-RenameGap(s, e, t, f) ==
-    LET S == s.st  T == t.st  F == f.st
-        old == HeadBranch(S)
-        new == HeadBranch(F) IN
-    /\ e.ev = "crash" /\ e.cmd.ev = "branchr" /\ e.cmdres = "ok"
-    /\ HeadOk(S) /\ HeadOk(F) /\ old # new
-    /\ T.head = S.head
-    /\ old \in Branches(S) /\ old \notin Branches(T)
-    /\ new \in Branches(T) /\ T.refs[new] = S.refs[old]
-    /\ \A b \in Branches(S) \ {old} : b \in Branches(T) /\ T.refs[b] = S.refs[b]
-    /\ Branches(T) = (Branches(S) \ {old}) \cup {new}
-    /\ T.objs = S.objs /\ T.idx = S.idx /\ T.wt = S.wt /\ T.hlog = S.hlog
+Dev(d, s, e, t, f) == FALSE
 
-Dev(d, s, e, t, f) ==
-    CASE d = "KF_C15_rename_gap" -> RenameGap(s, e, t, f)
-      [] OTHER -> FALSE
-
-Explains(d) ==
-    CASE d = "KF_C15_rename_gap" -> {"C15_Loads", "C15_Refs"}
-      [] OTHER -> {}
+Explains(d) == {}
 
 Devs(s, e, t, f) == {d \in DevIds : Dev(d, s, e, t, f)}
 =============================================================================
